@@ -1,6 +1,5 @@
 CONSTANTS
-  MaxIds = 4
-  MaxInt = 3
+  Slots = 3
   MaxLinks = 2
 INIT GenInit
 NEXT GenNext
